@@ -164,7 +164,7 @@ def run(ctx):
                        "a break/continue in the body jumps out without closing it" % (opened, counter, reg, kind),
                        f.where(bb))
         if has_loop_controls:
-            ctx.floor("C05.B2 child-compilation sites inside an open scope" + tag, open_sites, 4)
+            ctx.floor("C05.B2 child-compilation sites inside an open scope" + tag, open_sites, 2)
             # Break / Continue handlers
             # the Break / Continue arms are read through helpers of the generator that are not code generation entry
             # points themselves (`self.innermost_loop_mut()`)
